@@ -251,7 +251,13 @@ impl SmartCalcConfig {
             }
 
             for month in month_list.iter() {
-                let pattern = &format!(r"\b{}\b|\b{}\b", month.long, month.short);
+                let mut names = Vec::new();
+                for (month_name, month_number) in language_constant.long_months.iter().chain(language_constant.short_months.iter()) {
+                    if *month_number == month.month {
+                        names.push(format!(r"\b{}\b", month_name));
+                    }
+                }
+                let pattern = &names.join("|");
                 match Regex::new(pattern) {
                     Ok(re) => language_group.push((re, month.clone())),
                     Err(error) => log::error!("Month parser error ({}) {}", month.long, error)
